@@ -43,7 +43,7 @@ CHECKS["C12"] = dict(
     category="model_checking",
     technique="bounded exhaustive enumeration of middleware chains executed on the real server under the controlled scheduler (virtual time), plus deviation-bounded exploration of concurrent connects",
     text="Every namespace-middleware chain of length <= 3 over {accept, join+accept, reject with error / string / struct, join+reject} plus chains of 4-5 with one rejection at each position, on '/' and '/custom', is run against the real sio.Server through a harness-implemented Engine.IO socket; the oracle is the statement itself: invocation order is a prefix of registration order ending at the first rejection, exactly one CONNECT or CONNECT_ERROR carrying the rejection, connection handlers only for admitted sockets, and no trace of a rejected socket in the namespace list, the adapter's raw room indexes or the connection. 2-3 clients connecting at once with a middleware blocked on a gate are explored to the deviation bound. Per-socket event middlewares: chains of <= 2 x six handler signatures (no args, string, int, string+int, with ack) x accept/reject; and chains over {accept, reject, reject iff the first argument is 'bad'} x seven sets of 1-3 On/Once handlers on the same event x seven sequences of 1-3 accepted/rejected occurrences (also of an unrelated event): a rejected occurrence reaches no handler, an accepted one reaches each registered handler exactly once after the whole chain has seen it.",
-    note="Trusted: vsched semantics; rig R1 (harness speaks Socket.IO frames by hand). Scope: chains <= 5, <= 3 concurrent clients, bound 2 (quick) / 3 (thorough).",
+    note="Trusted: vsched semantics; rig R1 (harness speaks Socket.IO frames by hand). Scope: chains <= 5, <= 3 concurrent clients, bound 3 (quick) / 4 (thorough), one less for 3 clients and for the closed-during-chain scenarios.",
     design="3/C12")
 
 CHECKS["C06"] = dict(
